@@ -129,6 +129,17 @@ CLAIMS = {
               "with the Lean Api model; the running code is compared for (origin o, coords p+o) vs (origin 0, coords p) and "
               "origin None vs zeros: grids bit-equal when representable, values/rays to 1e-9, single and list, interpreter and "
               "JIT. Known finding: rays move by ~1e-3 cell under non-representable translations (gradient tie flips).")),
+    "C05": dict(
+        category="proof", design_ref="DESIGN.md §8 C05",
+        technique="Lean 4 homogeneity theorems over the reals for every 2D operator and, by induction over the schedule, for any number of sweeps + bit-level kernel correspondence + metamorphic unit-change runs",
+        text=("Proved over the reals for c > 0: t_ana, t_anad, the quadratic of the perturbation operator, the 4-point and "
+              "3-point plane-wave operators and the perturbation operator are homogeneous of degree 1 under the slowness and "
+              "the length unit change; hence any number of 2D sweeps commutes with both scalings, with identical sign "
+              "bookkeeping (gradient directions unchanged). Partial: the composition with the off-grid source initialisation "
+              "and the 3D operators is not mechanised, Big is scaled along with c. The formulas are tied by bit-level "
+              "correspondence of fteik2d/3d on heterogeneous, unequal-spacing, off-grid cases; the running code is checked "
+              "for both scalings (solve, vzero, gradient, evaluation, free-step rays; powers of two bit-for-bit up to 1e-12 "
+              "under JIT, other factors 1e-9) in interpreter and JIT mode.")),
 }
 
 WIP = "check not registered yet in this revision (model/theorems under construction); see DESIGN.md §8"
